@@ -48,7 +48,7 @@ func TestVerifC08Pkg(t *testing.T) {
 	}()
 	vkInitOnce.Do(func() { filtering.InitModule() })
 	rng := rep.Rand("main")
-	nConf := verifkit.Pick(24, 240)
+	nConf := verifkit.Pick(24, 1500)
 	for ci := 0; ci < nConf; ci++ {
 		c08PkgConfig(rep, ci, rng.Int63())
 	}
